@@ -1,13 +1,20 @@
 //@unit resp_dec
-//@properties C21
+//@properties C20 C21 C22
 //@source resp src/protocol/resp.rs
-//@source oracle verif:units/resp_dec/oracle/enc_exec.rs
 //@rules D2 R10
 #![feature(allocator_api)]
 #![allow(unused_imports, unused_variables, unused_mut, dead_code)]
 use vstd::prelude::*;
 use std::io;
 use vstd::std_specs::fmt::DisplaySpec;
+// `write!` on a Vec<u8> (A-STD, assumed): std's macro goes through io::Write::write_fmt and core::fmt::Arguments,
+// which Verus cannot see into.  This macro_rules shadows it inside the unit and routes the SAME arguments, unchanged,
+// to two stand-in functions whose assumed contract is the meaning of a format string with at most one `{}`:
+// the literal text with the argument's Display output in place of `{}`; writing to a Vec<u8> never fails.
+macro_rules! write {
+    ($dst:expr, $fmt:literal) => { vx_write0($dst, $fmt) };
+    ($dst:expr, $fmt:literal, $a:expr) => { vx_write1($dst, $fmt, &$a) };
+}
 verus!{
 global size_of usize == 8;
 //@include common/std_extra.rs
@@ -200,8 +207,9 @@ pub broadcast proof fn lemma_svs_push(e: Seq<RespValue>, v: RespValue)
 {
     assert(svs(e.push(v)) =~= svs(e).push(sv(v)));
 }
-/// outcome of decoding: a value and the remaining bytes; nothing to decode yet; a frame cut short; a malformed frame.
-pub enum D { Val(SV, Seq<u8>), More, Incomplete, Bad }
+/// outcome of decoding: a value and the remaining bytes; "wait for more bytes" (nothing to decode yet, or a frame cut
+/// short -- Ok(None) and Err(Incomplete) are the same answer to the connection loop); a malformed frame.
+pub enum D { Val(SV, Seq<u8>), Wait, Bad }
 /// the value of a plain-text (inline) command line, None when it is rejected; its tokenisation is not specified here
 pub uninterp spec fn inline_val(l: Seq<u8>) -> Option<SV>;
 
@@ -210,34 +218,34 @@ pub open spec fn MAXD() -> nat { 32 }
 pub open spec fn dec_text(l: Seq<u8>) -> Option<Seq<char>> { utf8_decode(l.skip(1)) }
 
 pub open spec fn dec_simple(s: Seq<u8>) -> D {
-    match line(s) { None => D::More, Some((l, rest)) => match dec_text(l) { None => D::Bad, Some(cs) => D::Val(SV::Simple(cs), rest) } }
+    match line(s) { None => D::Wait, Some((l, rest)) => match dec_text(l) { None => D::Bad, Some(cs) => D::Val(SV::Simple(cs), rest) } }
 }
 pub open spec fn dec_error(s: Seq<u8>) -> D {
-    match line(s) { None => D::More, Some((l, rest)) => match dec_text(l) { None => D::Bad, Some(cs) => D::Val(SV::Error(cs), rest) } }
+    match line(s) { None => D::Wait, Some((l, rest)) => match dec_text(l) { None => D::Bad, Some(cs) => D::Val(SV::Error(cs), rest) } }
 }
 pub open spec fn dec_integer(s: Seq<u8>) -> D {
-    match line(s) { None => D::More, Some((l, rest)) => match dec_text(l) { None => D::Bad, Some(cs) =>
+    match line(s) { None => D::Wait, Some((l, rest)) => match dec_text(l) { None => D::Bad, Some(cs) =>
         match parse_spec::<i64>(cs) { None => D::Bad, Some(i) => D::Val(SV::Int(i), rest) } } }
 }
 pub open spec fn dec_null(s: Seq<u8>) -> D {
-    match line(s) { None => D::More, Some((l, rest)) => if l.len() == 1 && l[0] == 95u8 { D::Val(SV::Null, rest) } else { D::Bad } }
+    match line(s) { None => D::Wait, Some((l, rest)) => if l.len() == 1 && l[0] == 95u8 { D::Val(SV::Null, rest) } else { D::Bad } }
 }
 pub open spec fn dec_bulk(s: Seq<u8>) -> D {
-    match line(s) { None => D::More, Some((l, rest)) => match dec_text(l) { None => D::Bad, Some(cs) =>
+    match line(s) { None => D::Wait, Some((l, rest)) => match dec_text(l) { None => D::Bad, Some(cs) =>
         match parse_spec::<i64>(cs) { None => D::Bad, Some(len) =>
             if len == -1 { D::Val(SV::Bulk(None), rest) }
             else if len < -1 { D::Bad }
-            else if rest.len() < len + 2 { D::Incomplete }
+            else if rest.len() < len + 2 { D::Wait }
             else if !(rest[len as int] == 13u8 && rest[len + 1] == 10u8) { D::Bad }
             else { D::Val(SV::Bulk(Some(rest.subrange(0, len as int))), rest.skip(len + 2)) } } } }
 }
 pub open spec fn dec_inline(s: Seq<u8>) -> D {
-    match line(s) { None => D::More, Some((l, rest)) => match inline_val(l) { None => D::Bad, Some(v) => D::Val(v, rest) } }
+    match line(s) { None => D::Wait, Some((l, rest)) => match inline_val(l) { None => D::Bad, Some(v) => D::Val(v, rest) } }
 }
 pub open spec fn dec_value(s: Seq<u8>, depth: nat) -> D
     decreases (if depth < MAXD() { MAXD() - depth } else { 0 }), 2int, 0nat
 {
-    if s.len() == 0 { D::More }
+    if s.len() == 0 { D::Wait }
     else if s[0] == 43u8 { dec_simple(s) }
     else if s[0] == 45u8 { dec_error(s) }
     else if s[0] == 58u8 { dec_integer(s) }
@@ -250,7 +258,7 @@ pub open spec fn dec_array(s: Seq<u8>, depth: nat) -> D
     decreases (if depth < MAXD() { MAXD() - depth } else { 0 }), 1int, 0nat
 {
     if depth >= MAXD() { D::Bad } else {
-    match line(s) { None => D::More, Some((l, rest)) => match dec_text(l) { None => D::Bad, Some(cs) =>
+    match line(s) { None => D::Wait, Some((l, rest)) => match dec_text(l) { None => D::Bad, Some(cs) =>
         match parse_spec::<usize>(cs) { None => D::Bad, Some(n) => dec_elems(rest, depth, n as nat, Seq::empty()) } } } }
 }
 /// the n remaining elements of an array, each decoded one level deeper; a missing element is a frame cut short
@@ -261,8 +269,7 @@ pub open spec fn dec_elems(s: Seq<u8>, depth: nat, n: nat, acc: Seq<SV>) -> D
     else if n == 0 { D::Val(SV::Array(acc), s) }
     else { match dec_value(s, depth + 1) {
         D::Val(v, rest) => dec_elems(rest, depth, (n - 1) as nat, acc.push(v)),
-        D::More => D::Incomplete,
-        D::Incomplete => D::Incomplete,
+        D::Wait => D::Wait,
         D::Bad => D::Bad,
     } }
 }
@@ -271,8 +278,7 @@ pub open spec fn dec_elems(s: Seq<u8>, depth: nat, n: nat, acc: Seq<SV>) -> D
 pub open spec fn agrees(r: RespResult<Option<RespValue>>, fin: Seq<u8>, d: D) -> bool {
     match d {
         D::Val(v, rest) => r matches Ok(Some(x)) && sv(x) == v && fin == rest,
-        D::More => r matches Ok(None),
-        D::Incomplete => r matches Err(RespError::Incomplete),
+        D::Wait => r matches Ok(None) || r matches Err(RespError::Incomplete),
         D::Bad => r matches Err(e) && !(e is Incomplete),
     }
 }
@@ -429,7 +435,7 @@ pub proof fn lemma_roundtrip_elems(items: Seq<SV>, k: nat, depth: nat, rest: Seq
 }
 
 /// "wait for more bytes": the two outcomes after which the connection loop keeps the buffer and reads again
-pub open spec fn waits(d: D) -> bool { d is More || d is Incomplete }
+pub open spec fn waits(d: D) -> bool { d is Wait }
 
 pub proof fn lemma_text_line_prefix(tag: u8, cs: Seq<char>, k: int)
     requires line_safe(cs), tag != 13u8, 0 <= k < text_line(tag, cs).len()
@@ -501,7 +507,7 @@ pub proof fn lemma_prefix_elems(items: Seq<SV>, i: nat, depth: nat, m: int, acc:
         forall|j: int| 0 <= j < items.len() ==> wf(items[j], depth + 1),
         0 <= m < enc_all(items.skip(i as int)).len(),
     ensures
-        dec_elems(enc_all(items.skip(i as int)).take(m), depth, (items.len() - i) as nat, acc) is Incomplete
+        dec_elems(enc_all(items.skip(i as int)).take(m), depth, (items.len() - i) as nat, acc) is Wait
     decreases items, items.len() - i
 {
     let tl = items.skip(i as int);
@@ -533,10 +539,11 @@ impl RespValue {
 //@ensures
         match dec_value(old(buf).view(), 0) {
             D::Val(v, rest) => r matches Ok(Some(x)) && sv(x) == v && final(buf).view() == rest,
-            D::More => r matches Ok(None) && final(buf).view() == old(buf).view(),
-            D::Incomplete => r matches Err(RespError::Incomplete) && final(buf).view() == old(buf).view(),
+            D::Wait => (r matches Ok(None) || r matches Err(RespError::Incomplete)) && final(buf).view() == old(buf).view(),
             D::Bad => r matches Err(e) && !(e is Incomplete) && is_suffix(final(buf).view(), old(buf).view()),
         },                                                              //#frame_or_untouched
+//@atstart
+        proof { assert(buf.view().skip(0) =~= buf.view()); }
 //@replace "&buf[..]" => "buf.as_slice_full()" :: `&buf[..]` on BytesMut goes through Deref<Target=[u8]> and Index<RangeFull>; the stand-in method has that meaning
 //@end
 
@@ -558,8 +565,6 @@ impl RespValue {
         agrees(r, final(buf)@, dec_simple(old(buf)@)),                  //#decodes_as_specified
         is_suffix(final(buf)@, old(buf)@),                              //#cursor_only_advances
         r matches Ok(Some(_)) ==> final(buf)@.len() < old(buf)@.len(),  //#value_consumes_bytes
-//@before "let s = String::from_utf8("
-            proof { lemma_line(old(buf)@); }
 //@closure map_err#1 (e: std::string::FromUtf8Error) -> (b: RespError) ensures b is InvalidEncoding
 //@end
 
@@ -570,8 +575,6 @@ impl RespValue {
         agrees(r, final(buf)@, dec_error(old(buf)@)),                   //#decodes_as_specified
         is_suffix(final(buf)@, old(buf)@),                              //#cursor_only_advances
         r matches Ok(Some(_)) ==> final(buf)@.len() < old(buf)@.len(),  //#value_consumes_bytes
-//@before "let s = String::from_utf8("
-            proof { lemma_line(old(buf)@); }
 //@closure map_err#1 (e: std::string::FromUtf8Error) -> (b: RespError) ensures b is InvalidEncoding
 //@end
 
@@ -584,8 +587,6 @@ impl RespValue {
         r matches Ok(Some(_)) ==> final(buf)@.len() < old(buf)@.len(),  //#value_consumes_bytes
 //@atstart
         broadcast use axiom_display_parse_int_error;
-//@before "let s = String::from_utf8("
-            proof { lemma_line(old(buf)@); }
 //@closure map_err#1 (e: std::string::FromUtf8Error) -> (b: RespError) ensures b is InvalidEncoding
 //@closure map_err#2 (e: std::num::ParseIntError) -> (b: RespError) ensures b is Protocol
 //@end
@@ -599,8 +600,6 @@ impl RespValue {
         r matches Ok(Some(_)) ==> final(buf)@.len() < old(buf)@.len(),  //#value_consumes_bytes
 //@atstart
         broadcast use axiom_display_parse_int_error;
-//@before "let len_str = String::from_utf8("
-            proof { lemma_line(old(buf)@); }
 //@before "let data = buf[..len].to_vec();"
             let ghost rest = buf@;
             proof {
@@ -635,8 +634,6 @@ impl RespValue {
         (if depth < 32 { 32 - depth } else { 0 }), 0int
 //@atstart
         broadcast use axiom_display_parse_int_error, lemma_suffix_trans, lemma_svs_push;
-//@before "let len_str = String::from_utf8("
-            proof { lemma_line(old(buf)@); }
 //@before "return Err(RespError::Protocol(\"Array nesting too deep\".to_string()));"
             proof { assert(buf@.skip(0) =~= buf@); }
 //@before "let mut elements = "
@@ -676,8 +673,6 @@ impl RespValue {
         agrees(r, final(buf)@, dec_null(old(buf)@)),                    //#decodes_as_specified
         is_suffix(final(buf)@, old(buf)@),                              //#cursor_only_advances
         r matches Ok(Some(_)) ==> final(buf)@.len() < old(buf)@.len(),  //#value_consumes_bytes
-//@before "if line.len() == 1"
-            proof { lemma_line(old(buf)@); }
 //@end
 
 //@fn RespValue::read_line ret=r
@@ -688,6 +683,8 @@ impl RespValue {
             Err(_) => false,
         },                                                              //#first_line_exactly
         is_suffix(final(buf)@, old(buf)@),                              //#cursor_only_advances
+        r matches Ok(Some(l)) ==> l@.len() + 2 + final(buf)@.len() == old(buf)@.len()
+            && (old(buf)@.len() > 0 && old(buf)@[0] != 13u8 ==> l@.len() >= 1),        //#line_shape
 //@before "let line = buf[..pos].to_vec();"
             proof {
                 let s = buf@;
@@ -730,23 +727,8 @@ impl RespValue {
 }
 
 // =====================================================================
-// the reference encoder (units/resp_dec/oracle/enc_exec.rs; the oracle of the Kani harnesses on RespValue::encode)
-// proved to write enc(san(sv(v))) for every value
+// the real encoder: RespValue::encode / line_safe against the encoding relation reply_of
 // =====================================================================
-pub open spec fn san_text(cs: Seq<char>) -> Seq<char> { Seq::new(cs.len(), |i: int| if cs[i] == '\r' || cs[i] == '\n' { ' ' } else { cs[i] }) }
-/// the value a reply is encoded as: CR/LF in one-line texts become spaces
-pub open spec fn san(v: SV) -> SV
-    decreases v
-{
-    match v {
-        SV::Simple(cs) => SV::Simple(san_text(cs)),
-        SV::Error(cs) => SV::Error(san_text(cs)),
-        SV::Array(items) => SV::Array(Seq::new(items.len(), |i: int| if 0 <= i < items.len() { san(items[i]) } else { SV::Null })),
-        _ => v,
-    }
-}
-
-
 /// what a value needs for its reply encoding to be decodable: nesting within the decoder's limit and lengths a Vec can have
 pub open spec fn shape_ok(v: SV, depth: nat) -> bool
     decreases v
@@ -758,30 +740,35 @@ pub open spec fn shape_ok(v: SV, depth: nat) -> bool
         _ => true,
     }
 }
-pub proof fn lemma_san_wf(v: SV, depth: nat)
-    requires shape_ok(v, depth)
-    ensures wf(san(v), depth)
+/// The contract of the real encoder (checked by the Kani unit resp_enc on RespValue::encode): the bytes written for v
+/// are enc(w) for a value w of the same shape in which every one-line text is free of CR/LF and is v's own text
+/// whenever that already was -- *which* replacement is used for an offending text is the encoder's choice.
+pub open spec fn reply_of(v: SV, w: SV) -> bool
+    decreases v
+{
+    match v {
+        SV::Simple(cs) => w matches SV::Simple(t) && line_safe(t) && (line_safe(cs) ==> t == cs),
+        SV::Error(cs) => w matches SV::Error(t) && line_safe(t) && (line_safe(cs) ==> t == cs),
+        SV::Array(items) => w matches SV::Array(ws) && ws.len() == items.len()
+            && forall|i: int| 0 <= i < items.len() ==> reply_of(items[i], ws[i]),
+        _ => w == v,
+    }
+}
+pub proof fn lemma_reply_wf(v: SV, w: SV, depth: nat)
+    requires reply_of(v, w), shape_ok(v, depth)
+    ensures wf(w, depth), wf(v, depth) ==> w == v
     decreases v
 {
     match v {
         SV::Array(items) => {
-            let t = san(v)->Array_0;
-            assert forall|i: int| 0 <= i < t.len() implies wf(t[i], depth + 1) by {
-                lemma_san_wf(items[i], depth + 1);
+            let ws = w->Array_0;
+            assert forall|i: int| 0 <= i < ws.len() implies wf(ws[i], depth + 1) && (wf(items[i], depth + 1) ==> ws[i] == items[i]) by {
+                lemma_reply_wf(items[i], ws[i], depth + 1);
             }
+            if wf(v, depth) { assert(ws =~= items); }
         }
         _ => {}
     }
-}
-/// C22: whatever text a reply carries, the bytes the reference encoder writes for it decode as exactly one frame,
-/// with nothing left over
-pub proof fn theorem_reply_is_exactly_one_frame(v: SV)
-    requires shape_ok(v, 0)
-    ensures dec_value(enc(san(v)), 0) == D::Val(san(v), Seq::<u8>::empty())
-{
-    lemma_san_wf(v, 0);
-    lemma_roundtrip(san(v), 0, Seq::empty());
-    assert(enc(san(v)) + Seq::<u8>::empty() =~= enc(san(v)));
 }
 /// C20: a well-formed frame followed by anything decodes to that frame and leaves exactly what followed; any proper
 /// prefix of it makes the decoder wait (and `decode` then leaves the buffer untouched, see its contract)
@@ -795,18 +782,19 @@ pub proof fn theorem_frame_then_rest(v: SV, rest: Seq<u8>, k: int)
     lemma_prefix(v, 0, k);
 }
 
-#[verifier::external_body]
-pub fn str_bytes(s: &str) -> (r: &[u8])
-    ensures r@ == utf8_encode(s@)
-{ s.as_bytes() }
-#[verifier::external_body]
-pub fn int_text_i64(i: i64) -> (r: String)
-    ensures r@ == fmt_int(i as int)
-{ i.to_string() }
-#[verifier::external_body]
-pub fn int_text_usize(n: usize) -> (r: String)
-    ensures r@ == fmt_int(n as int)
-{ n.to_string() }
+
+/// C22 for any encoder meeting that contract: the reply decodes as exactly one frame with nothing left over;
+/// C20's "encoding then decoding a well-formed value returns the value"
+pub proof fn theorem_reply_one_frame_any_sanitiser(v: SV, w: SV)
+    requires reply_of(v, w), shape_ok(v, 0)
+    ensures
+        dec_value(enc(w), 0) == D::Val(w, Seq::<u8>::empty()),
+        wf(v, 0) ==> dec_value(enc(w), 0) == D::Val(v, Seq::<u8>::empty()),
+{
+    lemma_reply_wf(v, w, 0);
+    lemma_roundtrip(w, 0, Seq::empty());
+    assert(enc(w) + Seq::<u8>::empty() =~= enc(w));
+}
 
 pub proof fn lemma_enc_all_push(s: Seq<SV>, v: SV)
     ensures enc_all(s.push(v)) == enc_all(s) + enc(v)
@@ -827,66 +815,209 @@ pub proof fn lemma_enc_all_push(s: Seq<SV>, v: SV)
     }
 }
 
-//@fn sanitize_text from=oracle ret=r
-//@ensures
-        r@ == san_text(s@),      //#replaces_cr_lf
-//@loop 1 iter=it
-        invariant
-            it.seq() == s@,
-            out@ == san_text(s@).take(it.index() as int),   //#prefix_done
-//@end
 
-//@fn put_line from=oracle
-//@ensures
-        final(out)@ == old(out)@ + text_line(tag, text@),     //#appends_line
-//@end
+// ---- the meaning of `write!(vec, "<literal with at most one {}>", arg)` (assumed, see the macro at the top) ----
+pub open spec fn cow_text(c: std::borrow::Cow<'_, str>) -> Seq<char> {
+    match c { std::borrow::Cow::Borrowed(s) => s@, std::borrow::Cow::Owned(s) => s@ }
+}
+/// the bytes Display writes for a value (A-STD): UTF-8 of a text; decimal digits of an integer
+pub trait DisplayBytes { spec fn display_bytes(&self) -> Seq<u8>; }
+impl DisplayBytes for i64 { open spec fn display_bytes(&self) -> Seq<u8> { utf8_encode(fmt_int(*self as int)) } }
+impl DisplayBytes for usize { open spec fn display_bytes(&self) -> Seq<u8> { utf8_encode(fmt_int(*self as int)) } }
+impl<'a> DisplayBytes for std::borrow::Cow<'a, str> { open spec fn display_bytes(&self) -> Seq<u8> { utf8_encode(cow_text(*self)) } }
+impl DisplayBytes for String { open spec fn display_bytes(&self) -> Seq<u8> { utf8_encode(self@) } }
+impl<'b, T: DisplayBytes> DisplayBytes for &'b T { open spec fn display_bytes(&self) -> Seq<u8> { (**self).display_bytes() } }
+pub open spec fn lit_bytes(s: Seq<char>) -> Seq<u8> { Seq::new(s.len(), |i: int| s[i] as u8) }
+/// rendering of a format string with at most one `{}` placeholder (ASCII literal text)
+pub open spec fn render(f: Seq<char>, arg: Seq<u8>) -> Seq<u8>
+    decreases f.len()
+{
+    if f.len() == 0 { Seq::empty() }
+    else if f.len() >= 2 && f[0] == '{' && f[1] == '}' { arg + lit_bytes(f.skip(2)) }
+    else { seq![f[0] as u8] + render(f.skip(1), arg) }
+}
+#[verifier::external_body]
+pub fn vx_write0(buf: &mut Vec<u8>, f: &'static str) -> (r: io::Result<()>)
+    ensures r is Ok, final(buf)@ == old(buf)@ + lit_bytes(f@)
+{ unimplemented!() }
+#[verifier::external_body]
+pub fn vx_write1<T: DisplayBytes>(buf: &mut Vec<u8>, f: &'static str, a: &T) -> (r: io::Result<()>)
+    ensures r is Ok, final(buf)@ == old(buf)@ + render(f@, a.display_bytes())
+{ unimplemented!() }
+/// "<tag>{}\r\n" renders as tag, argument, CRLF
+pub proof fn lemma_render_line(f: Seq<char>, tag: char, arg: Seq<u8>)
+    requires f =~= seq![tag, '{', '}', '\r', '\n'], tag != '{'
+    ensures render(f, arg) == seq![tag as u8] + arg + crlf()
+{
+    reveal_with_fuel(render, 3);
+    assert(f.skip(1).skip(2) =~= seq!['\r', '\n']);
+    assert(lit_bytes(f.skip(1).skip(2)) =~= crlf());
+    assert(f.skip(1)[0] == '{' && f.skip(1)[1] == '}');
+}
+/// `s.contains(p)` / `s.replace(p, to)` for a character predicate (A-STD; str's Pattern API has no Verus specification;
+/// the wrappers' bodies are the original expressions).  Existential `hit` because an exec closure's ensures is one-directional.
+pub open spec fn pred_hits<F: FnMut(char) -> bool>(p: F, s: Seq<char>, hit: Seq<bool>) -> bool {
+    hit.len() == s.len() && forall|i: int| #![trigger s[i]] #![trigger hit[i]] 0 <= i < hit.len() ==> p.ensures((s[i],), hit[i])
+}
+/// hit marks exactly the CR/LF characters of s
+pub open spec fn pred_hits_crlf(s: Seq<char>, hit: Seq<bool>) -> bool {
+    hit.len() == s.len() && forall|i: int| 0 <= i < s.len() ==> #[trigger] hit[i] == (s[i] == '\r' || s[i] == '\n')
+}
+pub open spec fn any_hit(hit: Seq<bool>) -> bool { exists|i: int| 0 <= i < hit.len() && #[trigger] hit[i] }
+/// s with every hit character replaced by the text `to`
+pub open spec fn subst(s: Seq<char>, hit: Seq<bool>, to: Seq<char>) -> Seq<char>
+    decreases s.len()
+{
+    if s.len() == 0 || hit.len() != s.len() { Seq::empty() }
+    else { subst(s.drop_last(), hit.drop_last(), to) + (if hit.last() { to } else { seq![s.last()] }) }
+}
+pub proof fn lemma_subst_line_safe(s: Seq<char>, hit: Seq<bool>, to: Seq<char>)
+    requires
+        hit.len() == s.len(), line_safe(to),
+        forall|i: int| 0 <= i < s.len() && !hit[i] ==> s[i] != '\r' && s[i] != '\n',
+    ensures line_safe(subst(s, hit, to))
+    decreases s.len()
+{
+    if s.len() > 0 {
+        lemma_subst_line_safe(s.drop_last(), hit.drop_last(), to);
+        let a = subst(s.drop_last(), hit.drop_last(), to);
+        let b = if hit.last() { to } else { seq![s.last()] };
+        assert forall|i: int| 0 <= i < (a + b).len() implies (a + b)[i] != '\r' && (a + b)[i] != '\n' by {
+            if i >= a.len() { assert((a + b)[i] == b[i - a.len()]); if !hit.last() { assert(!hit[s.len() - 1]); } }
+        }
+    }
+}
+#[verifier::external_body]
+pub fn str_contains_pred<F: FnMut(char) -> bool>(s: &str, p: F) -> (r: bool)
+    requires forall|c: char| p.requires((c,))
+    ensures exists|hit: Seq<bool>| #[trigger] pred_hits(p, s@, hit) && r == any_hit(hit)
+{ s.contains(p) }
+#[verifier::external_body]
+pub fn str_replace_pred<F: FnMut(char) -> bool>(s: &str, p: F, to: &str) -> (r: String)
+    requires forall|c: char| p.requires((c,))
+    ensures exists|hit: Seq<bool>| #[trigger] pred_hits(p, s@, hit) && r@ == subst(s@, hit, to@)
+{ s.replace(p, to) }
 
-//@fn enc_exec from=oracle
+/// "-1" is the decimal Display of -1 (A-STD)
+#[verifier::external_body]
+pub proof fn axiom_minus_one()
+    ensures utf8_encode(fmt_int(-1)) == seq![45u8, 49u8]
+{}
+
+impl RespValue {
+//@fn RespValue::line_safe ret=r props=C20,C22
 //@ensures
-        final(out)@ == old(out)@ + enc(san(sv(*v))),      //#writes_enc
-//@decreases
-        v
-//@after "put_line(out, 43u8, &t);"
-                proof { assert(out@ =~= old(out)@ + enc(san(sv(*v)))); }
-//@after "put_line(out, 45u8, &t);"
-                proof { assert(out@ =~= old(out)@ + enc(san(sv(*v)))); }
-//@after "put_line(out, 58u8, &t);"
-                proof { assert(out@ =~= old(out)@ + enc(san(sv(*v)))); }
-//@after "put_line(out, 36u8, &t);" 1
-                proof { assert(out@ =~= old(out)@ + enc(san(sv(*v)))); }
-//@after "out.push(10u8);" 1
-                proof { assert(out@ =~= old(out)@ + enc(san(sv(*v)))); }
-//@after "out.push(10u8);" 2
-                proof { assert(out@ =~= old(out)@ + enc(san(sv(*v)))); }
-//@before "enc_exec(&items[i], out);"
-                proof { let e = items@[i as int]; assert(tgt[i as int] == san(sv(e))); }
-//@before "let mut i = 0;"
-            let ghost tgt = san(sv(*v))->Array_0;
-            let ghost pre = out@;
-            proof {
-                assert(tgt.take(0) =~= Seq::<SV>::empty()); assert(pre + enc_all(tgt.take(0)) =~= pre);
-                if items@.len() == 0 { assert(tgt =~= Seq::<SV>::empty()); assert(pre =~= old(out)@ + enc(san(sv(*v)))); }
+        line_safe(cow_text(r)),                                 //#result_is_one_line
+        line_safe(s@) ==> cow_text(r) == s@,                    //#clean_text_unchanged
+//@replace "s.contains(" => "str_contains_pred(s, " :: str::contains(Pattern) has no Verus specification; wrapper body is the original expression
+//@replace "s.replace(" => "str_replace_pred(s, " :: str::replace(Pattern, &str) has no Verus specification; wrapper body is the original expression
+//@closure str_contains_pred#1 (c: char) -> (b: bool) ensures b == (@BODY)
+//@closure str_replace_pred#1 (c: char) -> (b: bool) ensures b == (@BODY)
+//@atstart
+        proof {
+            // the replacement text is a literal: Verus needs its characters revealed (a handful of plausible ones)
+            reveal_strlit(" "); reveal_strlit("_"); reveal_strlit("?"); reveal_strlit(""); reveal_strlit("."); reveal_strlit("-"); reveal_strlit("  "); reveal_strlit("\\n");
+            assert forall|hit: Seq<bool>, to: Seq<char>| pred_hits_crlf(s@, hit) && line_safe(to) implies line_safe(#[trigger] subst(s@, hit, to)) by {
+                lemma_subst_line_safe(s@, hit, to);
             }
-//@loop 1
-                invariant
-                    i <= items@.len(),
-                    tgt.len() == items@.len(),
-                    forall|j: int| 0 <= j < items@.len() ==> tgt[j] == san(sv(items@[j])),
-                    out@ == pre + enc_all(tgt.take(i as int)),      //#elements_written
-                    v matches RespValue::Array(its) && its == items,
-                    pre == old(out)@ + text_line(42u8, fmt_int(items@.len() as int)),
-                    san(sv(*v)) == SV::Array(tgt),
-                    i == items@.len() ==> out@ == old(out)@ + enc(san(sv(*v))),     //#all_written_at_exit
-                decreases items@.len() - i
-//@before "i += 1;"
-                proof {
-                    lemma_enc_all_push(tgt.take(i as int), tgt[i as int]);
-                    assert(tgt.take(i as int).push(tgt[i as int]) =~= tgt.take(i + 1));
-                    if i + 1 == items@.len() {
-                        assert(tgt.take(i + 1) =~= tgt);
-                        assert(out@ =~= old(out)@ + enc(san(sv(*v))));
-                    }
-                }
+        }
 //@end
+
+//@fn RespValue::encode ret=r props=C20,C22
+//@ensures
+        r is Ok,                                                                                                //#never_fails
+        exists|w: SV| reply_of(sv(*self), w) && final(buf)@ == old(buf)@ + enc(w),                              //#writes_a_reply_encoding
+//@decreases
+        self
+//@replace "write!(buf, \"+{}\r\n\", Self::line_safe(s))?;" => "let t__ = Self::line_safe(s); write!(buf, \"+{}\r\n\", t__)?;" :: names the argument so that ghost text can mention it (evaluation order unchanged)
+//@replace "write!(buf, \"-{}\r\n\", Self::line_safe(e))?;" => "let t__ = Self::line_safe(e); write!(buf, \"-{}\r\n\", t__)?;" :: names the argument so that ghost text can mention it (evaluation order unchanged)
+//@atstart
+        let ghost mut w: SV = SV::Null;
+        let ghost mut ws: Seq<SV> = Seq::empty();
+        let ghost b0 = buf@;
+//@after "write!(buf, \"+{}\r\n\", t__)?;"
+                proof {
+                    reveal_strlit("+{}\r\n");
+                    lemma_render_line("+{}\r\n"@, '+', utf8_encode(cow_text(t__)));
+                    w = SV::Simple(cow_text(t__));
+                    assert(reply_of(sv(*self), w) && buf@ =~= b0 + enc(w));
+                }
+//@after "write!(buf, \"-{}\r\n\", t__)?;"
+                proof {
+                    reveal_strlit("-{}\r\n");
+                    lemma_render_line("-{}\r\n"@, '-', utf8_encode(cow_text(t__)));
+                    w = SV::Error(cow_text(t__));
+                    assert(reply_of(sv(*self), w) && buf@ =~= b0 + enc(w));
+                }
+//@after "write!(buf, \":{}\r\n\", i)?;"
+                proof {
+                    reveal_strlit(":{}\r\n");
+                    lemma_render_line(":{}\r\n"@, ':', utf8_encode(fmt_int(*i as int)));
+                    w = SV::Int(*i);
+                    assert(reply_of(sv(*self), w) && buf@ =~= b0 + enc(w));
+                }
+//@after "write!(buf, \"$-1\r\n\")?;"
+                proof {
+                    reveal_strlit("$-1\r\n");
+                    axiom_minus_one();
+                    assert(lit_bytes("$-1\r\n"@) =~= text_line(36u8, fmt_int(-1)));
+                    w = SV::Bulk(None);
+                    assert(reply_of(sv(*self), w) && buf@ =~= b0 + enc(w));
+                }
+//@after "write!(buf, \"${}\r\n\", data.len())?;"
+                proof {
+                    reveal_strlit("${}\r\n");
+                    lemma_render_line("${}\r\n"@, '$', utf8_encode(fmt_int(data@.len() as int)));
+                }
+//@after "write!(buf, \"\r\n\")?;"
+                proof {
+                    reveal_strlit("\r\n");
+                    assert(lit_bytes("\r\n"@) =~= crlf());
+                    w = SV::Bulk(Some(data@));
+                    assert(buf@ =~= b0 + enc(w));
+                }
+//@after "write!(buf, \"*{}\r\n\", items.len())?;"
+                let ghost pre = buf@;
+                proof {
+                    reveal_strlit("*{}\r\n");
+                    lemma_render_line("*{}\r\n"@, '*', utf8_encode(fmt_int(items@.len() as int)));
+                    assert(pre + enc_all(ws) =~= pre);
+                }
+//@loop 1 iter=it
+                    invariant
+                        self matches RespValue::Array(its) && its == items,
+                        pre == b0 + text_line(42u8, fmt_int(items@.len() as int)),
+                        it.seq().len() == items@.len(),
+                        ws.len() == it.index(),
+                        forall|j: int| 0 <= j < ws.len() ==> reply_of(sv(items@[j]), #[trigger] ws[j]),      //#elements_are_replies
+                        buf@ == pre + enc_all(ws),                                                    //#elements_written
+//@before "item.encode(buf)?;"
+                    let ghost bi = buf@;
+//@after "item.encode(buf)?;"
+                    proof {
+                        let wi = choose|wi: SV| reply_of(sv(*item), wi) && buf@ == bi + enc(wi);
+                        lemma_enc_all_push(ws, wi);
+                        ws = ws.push(wi);
+                        assert(buf@ =~= pre + enc_all(ws));
+                    }
+//@after "write!(buf, \"_\r\n\")?;"
+                proof {
+                    reveal_strlit("_\r\n");
+                    assert(lit_bytes("_\r\n"@) =~= seq![95u8, 13u8, 10u8]);
+                    w = SV::Null;
+                    assert(reply_of(sv(*self), w) && buf@ =~= b0 + enc(w));
+                }
+//@before "Ok(())"
+        proof {
+            if self is Array {
+                w = SV::Array(ws);
+                assert(sv(*self)->Array_0.len() == ws.len());
+                assert(reply_of(sv(*self), w));
+                assert(buf@ =~= b0 + enc(w));
+            }
+            assert(reply_of(sv(*self), w) && buf@ == b0 + enc(w));
+        }
+//@end
+}
 }
 fn main(){}
